@@ -15,6 +15,7 @@ import (
 	"net/http/httptest"
 	"sync"
 	"time"
+	"verifharness/internal/netx"
 )
 
 // Content returns the first n bytes of the deterministic stream of (id, ver).
@@ -73,7 +74,7 @@ type Origin struct {
 // New starts an origin with the given handler.
 func New(h Handler) *Origin {
 	o := &Origin{handler: h}
-	o.Srv = httptest.NewUnstartedServer(http.HandlerFunc(o.serve))
+	o.Srv = netx.Server(http.HandlerFunc(o.serve))
 	o.Srv.Config.ErrorLog = log.New(io.Discard, "", 0)
 	o.Srv.Start()
 	return o
